@@ -9,6 +9,8 @@ package main
 //	    storage model; spec = filter over the lines parsed one by one.
 //	i1.dnschain (same arguments) = (netTexts)|<class of NetworkRule>|(v4)|(v6)|<matched>
 //	    Go: DNSEngine.MatchRequest; Lean: DNS engine model with group C's GetDNSBasicRule.
+//	i1.coschain ((id ign content)…) host css js generic psl = (generic selectors)|(specific selectors)
+//	    Go: CosmeticEngine.Match; Lean: storage scan with the modelled parser → cosmetic lookup table.
 //	i1.scan     ((id ign content)…) addrs prefixes rewrites reshortcuts = ((storageIdx/kind:text:id),…)
 //	    Go: RuleStorageScanner; Lean: storage scan with the modelled parser.
 //
@@ -32,6 +34,7 @@ func init() {
 	gens["i1.chain"] = i1GenChain
 	gens["i1.dnschain"] = i1GenDNSChain
 	gens["i1.scan"] = i1GenScan
+	gens["i1.coschain"] = i1GenCosChain
 }
 
 var i1ListIDs = []int{1, 2, 3, 7, 1000, 2147483647, -1, -2147483648, 0}
@@ -361,4 +364,112 @@ func i1GenScan(r *rng, n int, w *bufio.Writer) {
 		fmt.Fprintf(w, "i1.scan %s %s %s %s %s = %s ## lists: %s\n", sc.wlists(), addrs, prefixes, rewrites, shortcuts, ans, sc.note)
 	}
 	_ = sort.Strings
+}
+
+// i1CosLine: cosmetic rules of every shape among other lines (IgnoreCosmetic lists contribute nothing).
+func i1CosLine(r *rng) string {
+	var t string
+	switch r.n(10) {
+	case 0, 1, 2, 3, 4, 5:
+		t = c15GenRule(r)
+	case 6:
+		t = pick(r, i1Cosmetic)
+	case 7:
+		t = pick(r, i1Noise)
+	case 8:
+		t = pick(r, []string{"0.0.0.0 example.org  ## not cosmetic", "example.org\t##.tab", "example.org ##.sp", "||example.org^", "example.org",
+			"#@#.x", "example.org#@#", "a..b##.x", "example.org.##.dot", ".example.org##.lead", "~##.x", "EXAMPLE.org##.upper", "example.org,##.trail"})
+	default:
+		t = eMutate(r, c15GenRule(r))
+	}
+	t = strings.NewReplacer("\n", "", "\r", "").Replace(t)
+	if r.chance(1, 8) {
+		t = pick(r, []string{" ", "\t", "\u00a0"}) + t
+	}
+	if r.chance(1, 8) {
+		t += pick(r, []string{" ", "\t", "\u3000"})
+	}
+
+	return t
+}
+
+func i1GenCosChain(r *rng, n int, w *bufio.Writer) {
+	bReseed(r)
+	for i := 0; i < n; {
+		nLists := 1 + r.n(3)
+		nLines := 1 + r.n(12)
+		if r.chance(1, 5) {
+			nLines = 1 + r.n(40)
+		}
+		ids := append([]int{}, i1ListIDs...)
+		shuffle(r, ids)
+		bodies := make([][]string, nLists)
+		var all []string
+		for j := 0; j < nLines; j++ {
+			t := i1CosLine(r)
+			if len(all) > 0 && r.chance(1, 8) {
+				t = pick(r, all)
+			}
+			all = append(all, t)
+			l := r.n(nLists)
+			bodies[l] = append(bodies[l], t)
+		}
+		sc := &i1Scenario{}
+		var ls []filterlist.RuleList
+		var note []string
+		for j, b := range bodies {
+			eol := pick(r, []string{"\n", "\n", "\r\n"})
+			content := strings.Join(b, eol)
+			if r.chance(2, 3) {
+				content += eol
+			}
+			l := c11List{id: ids[j], ign: r.chance(1, 5), content: content}
+			sc.lists = append(sc.lists, l)
+			ls = append(ls, &filterlist.StringRuleList{ID: l.id, RulesText: l.content, IgnoreCosmetic: l.ign})
+			note = append(note, fmt.Sprintf("[%d ign=%v] %q", l.id, l.ign, l.content))
+		}
+		s, err := filterlist.NewRuleStorage(ls)
+		if err != nil {
+			panic(err)
+		}
+		engine := urlfilter.NewCosmeticEngine(s)
+		lw := sc.wlists()
+		var used []string
+		for _, d := range append(append([]string{}, c15Domains...), c15Wild...) {
+			if strings.Contains(strings.Join(all, "\n"), d) {
+				used = append(used, d)
+			}
+		}
+		for j := 0; j < 2 && i < n; j++ {
+			host := c15Host(r)
+			if r.chance(2, 3) && len(used) > 0 {
+				host = pick(r, used)
+				if strings.HasSuffix(host, ".*") {
+					host = strings.TrimSuffix(host, "*") + pick(r, []string{"com", "co.uk", "de", "org", "notatld"})
+				}
+				host = pick(r, []string{"", "", "www.", "a.b.", "my"}) + host
+			}
+			for k := 0; k < 3 && i < n; k, i = k+1, i+1 {
+				flags := pick(r, []int{1, 5, 5, 5, 7, 7, 3, 0, 4})
+				css, js, gen := flags&1 != 0, flags&2 != 0, flags&4 != 0
+				ans := guardStr(func() string {
+					res := engine.Match(host, css, js, gen)
+					extra := len(res.CSS.Generic) + len(res.CSS.Specific) + len(res.CSS.GenericExtCSS) + len(res.CSS.SpecificExtCSS) +
+						len(res.JS.Generic) + len(res.JS.Specific)
+					if extra != 0 {
+						return "unexpected-css-or-js-result"
+					}
+					a := c15SelSet(res.ElementHiding.Generic, res.ElementHiding.GenericExtCSS) + "|" +
+						c15SelSet(res.ElementHiding.Specific, res.ElementHiding.SpecificExtCSS)
+					if a == "()|()" {
+						a = "()"
+					}
+
+					return a
+				})
+				fmt.Fprintf(w, "i1.coschain %s %s %s %s %s %s = %s ## host=%q css=%v js=%v generic=%v lists: %s\n",
+					lw, wb(host), wbool(css), wbool(js), wbool(gen), wpsl(host), ans, host, css, js, gen, strings.Join(note, " ‖ "))
+			}
+		}
+	}
 }
